@@ -1,3 +1,1 @@
 package parsersim
-
-func campaignC18(p *Parser, req *Request, resp *Response) { resp.Error = "c18 not built yet" }
